@@ -29,6 +29,21 @@ struct Shared {
     flushes: usize,
 }
 
+const ERR_KINDS: [ErrorKind; 12] = [
+    ErrorKind::Other,
+    ErrorKind::WouldBlock,
+    ErrorKind::TimedOut,
+    ErrorKind::BrokenPipe,
+    ErrorKind::ConnectionRefused,
+    ErrorKind::WriteZero,
+    ErrorKind::UnexpectedEof,
+    ErrorKind::NotConnected,
+    ErrorKind::PermissionDenied,
+    ErrorKind::InvalidInput,
+    ErrorKind::OutOfMemory,
+    ErrorKind::ConnectionReset,
+];
+
 struct Scripted(Rc<RefCell<Shared>>);
 
 impl Write for Scripted {
@@ -46,7 +61,8 @@ impl Write for Scripted {
         match o {
             Outcome::Ok => Ok(buf.len()),
             Outcome::Intr => Err(io::Error::new(ErrorKind::Interrupted, Payload(0))),
-            Outcome::Err(id) => Err(io::Error::new(ErrorKind::Other, Payload(id))),
+            // the kind varies with the payload id: the writer must pass every kind but Interrupted through unchanged
+            Outcome::Err(id) => Err(io::Error::new(ERR_KINDS[(id as usize) % ERR_KINDS.len()], Payload(id))),
         }
     }
     fn flush(&mut self) -> io::Result<()> {
